@@ -219,6 +219,30 @@ def body_io(ctx, case):
                   ctx.check(np.all(np.abs(s) < 2e-5 + 1e-6 * dense.shape[1]), "full_logprobs_not_normalised", lambda: "line %r sums %r; " % (i, s) + desc())
                   dl = tl.get_dense_logits()
                   ctx.check(np.allclose(lp - lp[:, :1], dl - dl[:, :1], atol=1e-4), "full_logprobs_not_shift_of_logits", desc)
+        # ---- the same file name is written again with other content (a page that is recognised a second time), also as a bare
+        # file name in the working directory: a later load restores what the file holds now
+        if case["via"] == "path" and model and not case["legacy"] and miss_id is None:
+            l3 = make_layout([i for i in model], 1, lambda line, i: None)
+            for line in l3.lines_iterator():
+                m0, ch0, co0, _ = model[line.id]
+                line.logits = sparse.csc_matrix((m0.toarray() * 2 + 1).astype(np.float32))
+                line.characters = list(ch0)[::-1]
+                line.logit_coords = list(co0)
+            old_cwd = os.getcwd()
+            bare = case["nreg"] % 2 == 0
+            try:
+                if bare:
+                    os.chdir(os.path.dirname(path))
+                target = os.path.basename(path) if bare else path
+                ctx.must("save_raises", l3.save_logits, target)
+                l4 = make_layout([i for i in model], 1, lambda line, i: None)
+                ctx.must("load_raises", l4.load_logits, target)
+            finally:
+                os.chdir(old_cwd)
+            for a_, b_ in zip(l3.lines_iterator(), l4.lines_iterator()):
+                ctx.check(b_.logits is not None and (a_.logits != b_.logits).nnz == 0 and list(a_.characters) == list(b_.characters),
+                          "rewritten_file_loads_its_earlier_content", lambda: "line %r (%s file name); " % (a_.id, "bare" if bare else "absolute") + desc())
+            ctx.event("file_rewritten_with_other_content" + ("(bare file name)" if bare else ""))
         for i, arr, snap_ in held:
             ctx.check(arr.shape == snap_.shape and np.array_equal(arr, snap_), "reconstruction_of_an_earlier_line_changed_by_later_ones",
                       lambda: "line %r; " % (i,) + desc())
